@@ -122,4 +122,233 @@ theorem readASN1Tag_der (t : UInt8) (body rest : Bytes) (ht : (t &&& 0x1f == 0x1
     rw [this, ← List.cons_append, List.drop_left]
   simp [readASN1Tag, readAnyASN1, h, Elem.body, hd]
 
+
+/-! ## reader → DER direction -/
+
+theorem natToBE_readUnsigned1 (a : UInt8) : natToBE 1 (readUnsigned [a]) = [a] := by
+  have := a.toNat_lt
+  rw [readUnsigned1]
+  simp only [natToBE, natToLE, List.reverse_cons, List.reverse_nil, List.nil_append]
+  rw [Nat.mod_eq_of_lt this]; simp
+theorem natToBE_readUnsigned2 (a b : UInt8) : natToBE 2 (readUnsigned [a, b]) = [a, b] := by
+  have := a.toNat_lt; have := b.toNat_lt
+  rw [readUnsigned2]
+  simp only [natToBE, natToLE, List.reverse_cons, List.reverse_nil, List.nil_append, List.cons_append]
+  have h1 : (a.toNat * 256 + b.toNat) / 256 % 256 = a.toNat := by omega
+  have h2 : (a.toNat * 256 + b.toNat) % 256 = b.toNat := by omega
+  rw [h1, h2]; simp
+theorem natToBE_readUnsigned3 (a b c : UInt8) : natToBE 3 (readUnsigned [a, b, c]) = [a, b, c] := by
+  have := a.toNat_lt; have := b.toNat_lt; have := c.toNat_lt
+  rw [readUnsigned3]
+  simp only [natToBE, natToLE, List.reverse_cons, List.reverse_nil, List.nil_append, List.cons_append]
+  have h1 : ((a.toNat * 256 + b.toNat) * 256 + c.toNat) / 256 / 256 % 256 = a.toNat := by omega
+  have h2 : ((a.toNat * 256 + b.toNat) * 256 + c.toNat) / 256 % 256 = b.toNat := by omega
+  have h3 : ((a.toNat * 256 + b.toNat) * 256 + c.toNat) % 256 = c.toNat := by omega
+  rw [h1, h2, h3]; simp
+theorem natToBE_readUnsigned4 (a b c d : UInt8) : natToBE 4 (readUnsigned [a, b, c, d]) = [a, b, c, d] := by
+  have := a.toNat_lt; have := b.toNat_lt; have := c.toNat_lt; have := d.toNat_lt
+  rw [readUnsigned4]
+  simp only [natToBE, natToLE, List.reverse_cons, List.reverse_nil, List.nil_append, List.cons_append]
+  have h1 : (((a.toNat * 256 + b.toNat) * 256 + c.toNat) * 256 + d.toNat) / 256 / 256 / 256 % 256 = a.toNat := by omega
+  have h2 : (((a.toNat * 256 + b.toNat) * 256 + c.toNat) * 256 + d.toNat) / 256 / 256 % 256 = b.toNat := by omega
+  have h3 : (((a.toNat * 256 + b.toNat) * 256 + c.toNat) * 256 + d.toNat) / 256 % 256 = c.toNat := by omega
+  have h4 : (((a.toNat * 256 + b.toNat) * 256 + c.toNat) * 256 + d.toNat) % 256 = d.toNat := by omega
+  rw [h1, h2, h3, h4]; simp
+
+/-- a k-byte string (1 ≤ k ≤ 4) whose first byte is non-zero and whose value is ≥ 128 is the DER long form
+    of its value -/
+theorem derLen_of_lenBytes (k : Nat) (lb : Bytes) (hk1 : 1 ≤ k) (hk4 : k ≤ 4) (hlb : lb.length = k)
+    (h128 : 128 ≤ readUnsigned lb) (htop : readUnsigned lb >>> ((k - 1) * 8) ≠ 0) :
+    derLen (readUnsigned lb) = UInt8.ofNat (0x80 + k) :: lb := by
+  unfold derLen
+  match k, lb, hlb with
+  | 1, [a], _ =>
+    have := a.toNat_lt
+    have e := natToBE_readUnsigned1 a
+    rw [readUnsigned1] at *
+    simp [show ¬ a.toNat < 128 by omega, this, e]
+  | 2, [a, b], _ =>
+    have := a.toNat_lt; have := b.toNat_lt
+    have e := natToBE_readUnsigned2 a b
+    rw [readUnsigned2] at *
+    rw [show (2 - 1) * 8 = 8 from rfl, Nat.shiftRight_eq_div_pow] at htop
+    simp [show ¬ a.toNat * 256 + b.toNat < 128 by omega, show ¬ a.toNat * 256 + b.toNat < 256 by omega,
+      show a.toNat * 256 + b.toNat < 65536 by omega, e]
+  | 3, [a, b, c], _ =>
+    have := a.toNat_lt; have := b.toNat_lt; have := c.toNat_lt
+    have e := natToBE_readUnsigned3 a b c
+    rw [readUnsigned3] at *
+    rw [show (3 - 1) * 8 = 16 from rfl, Nat.shiftRight_eq_div_pow] at htop
+    simp [show ¬ (a.toNat * 256 + b.toNat) * 256 + c.toNat < 128 by omega,
+      show ¬ (a.toNat * 256 + b.toNat) * 256 + c.toNat < 256 by omega,
+      show ¬ (a.toNat * 256 + b.toNat) * 256 + c.toNat < 65536 by omega,
+      show (a.toNat * 256 + b.toNat) * 256 + c.toNat < 16777216 by omega, e]
+  | 4, [a, b, c, d], _ =>
+    have := a.toNat_lt; have := b.toNat_lt; have := c.toNat_lt; have := d.toNat_lt
+    have e := natToBE_readUnsigned4 a b c d
+    rw [readUnsigned4] at *
+    rw [show (4 - 1) * 8 = 24 from rfl, Nat.shiftRight_eq_div_pow] at htop
+    simp [show ¬ ((a.toNat * 256 + b.toNat) * 256 + c.toNat) * 256 + d.toNat < 128 by omega,
+      show ¬ ((a.toNat * 256 + b.toNat) * 256 + c.toNat) * 256 + d.toNat < 256 by omega,
+      show ¬ ((a.toNat * 256 + b.toNat) * 256 + c.toNat) * 256 + d.toNat < 65536 by omega,
+      show ¬ ((a.toNat * 256 + b.toNat) * 256 + c.toNat) * 256 + d.toNat < 16777216 by omega, e]
+
+theorem read_some (n : Nat) (s w r : Bytes) (h : read n s = some (w, r)) :
+    s = w ++ r ∧ w.length = n ∧ w = s.take n := by
+  unfold read at h
+  split at h
+  · simp at h
+  · simp only [Option.some.injEq, Prod.mk.injEq] at h
+    obtain ⟨h1, h2⟩ := h
+    subst h1 h2
+    refine ⟨(List.take_append_drop n s).symm, ?_, rfl⟩
+    simp; omega
+
+
+theorem readUnsigned_lt (bs : Bytes) : readUnsigned bs < 2 ^ 32 := by
+  unfold readUnsigned
+  suffices h : ∀ acc, acc < 2 ^ 32 → bs.foldl (fun acc b => (acc * 256 + b.toNat) % 2 ^ 32) acc < 2 ^ 32 from
+    h 0 (by omega)
+  induction bs with
+  | nil => intro acc h; simpa using h
+  | cons b bs ih => intro acc _; simp only [List.foldl_cons]; exact ih _ (Nat.mod_lt _ (by omega))
+
+theorem readUnsigned_lt_pow (lb : Bytes) (h : lb.length ≤ 4) : readUnsigned lb < 256 ^ lb.length := by
+  match lb, h with
+  | [], _ => simp [readUnsigned]
+  | [a], _ => have := a.toNat_lt; rw [readUnsigned1]; simpa using this
+  | [a, b], _ =>
+    have := a.toNat_lt; have := b.toNat_lt
+    rw [readUnsigned2]; simp only [List.length_cons, List.length_nil]; omega
+  | [a, b, c], _ =>
+    have := a.toNat_lt; have := b.toNat_lt; have := c.toNat_lt
+    rw [readUnsigned3]; simp only [List.length_cons, List.length_nil]; omega
+  | [a, b, c, d], _ =>
+    have := a.toNat_lt; have := b.toNat_lt; have := c.toNat_lt; have := d.toNat_lt
+    rw [readUnsigned4]; simp only [List.length_cons, List.length_nil]; omega
+
+theorem short_lt (b : UInt8) (h : (b &&& 0x80 == 0) = true) : b.toNat < 128 := by
+  obtain ⟨n, hn, rfl⟩ := byte_cases b
+  rw [short_bit n hn] at h
+  rw [toNat_ofNat_lt n hn]
+  simpa using h
+
+theorem long_form (b : UInt8) (h : ¬ (b &&& 0x80 == 0) = true) :
+    b = UInt8.ofNat (0x80 + (b &&& 0x7f).toNat) ∧ (b &&& 0x7f).toNat < 128 := by
+  obtain ⟨n, hn, rfl⟩ := byte_cases b
+  rw [short_bit n hn] at h
+  rw [lenLen_bits n hn]
+  have : ¬ n < 128 := by simpa using h
+  constructor
+  · congr 1; omega
+  · omega
+
+/-- whatever `readASN1` accepts is a DER element: low-number tag, minimal length octets -/
+theorem readASN1_sound (s : Bytes) (e : Elem) (h : readASN1 s = some e) :
+    (e.tag &&& 0x1f == 0x1f) = false ∧ e.body.length ≤ 0xfffffff9 ∧
+    e.hdr = 1 + (derLen e.body.length).length ∧
+    e.whole = e.tag :: (derLen e.body.length ++ e.body) ∧ s = e.whole ++ e.rest := by
+  unfold readASN1 at h
+  match s, h with
+  | tag :: lenByte :: tl, h =>
+    simp only at h
+    split at h
+    · simp at h
+    · rename_i ht
+      have ht' : (tag &&& 0x1f == 0x1f) = false := by simpa using ht
+      split at h
+      · -- short form
+        rename_i hs
+        have hlt := short_lt lenByte hs
+        cases hr : read (lenByte.toNat + 2) (tag :: lenByte :: tl) with
+        | none => simp [hr] at h
+        | some p =>
+          obtain ⟨w, r⟩ := p
+          simp only [hr, Option.some.injEq] at h
+          subst h
+          obtain ⟨h1, h2, h3⟩ := read_some _ _ _ _ hr
+          have hw : w = tag :: lenByte :: tl.take lenByte.toNat := by
+            rw [h3]; simp [List.take_succ_cons]
+          have hb : (tl.take lenByte.toNat).length = lenByte.toNat := by
+            have : w.length = 2 + (tl.take lenByte.toNat).length := by rw [hw]; simp; omega
+            omega
+          have hd : derLen lenByte.toNat = [lenByte] := by
+            unfold derLen; simp [hlt]
+          simp only [Elem.body]
+          refine ⟨ht', ?_, ?_, ?_, h1⟩
+          · rw [hw]; simp only [List.drop_succ_cons, List.drop_zero]; omega
+          · rw [hw]; simp only [List.drop_succ_cons, List.drop_zero, hb, hd]; rfl
+          · rw [hw]; simp only [List.drop_succ_cons, List.drop_zero, hb, hd]; rfl
+      · -- long form
+        rename_i hs
+        obtain ⟨hform, _⟩ := long_form lenByte hs
+        generalize hk : (lenByte &&& 0x7f).toNat = k at *
+        split at h
+        · simp at h
+        · rename_i hc1
+          simp only [Bool.or_eq_true, beq_iff_eq, decide_eq_true_eq, not_or] at hc1
+          obtain ⟨⟨hk0, hk4⟩, hlen⟩ := hc1
+          split at h
+          · simp at h
+          · rename_i h128
+            split at h
+            · simp at h
+            · rename_i htop
+              split at h
+              · simp at h
+              · rename_i hov
+                generalize hlb : List.take k (List.drop 2 (tag :: lenByte :: tl)) = lb at *
+                have hlbl : lb.length = k := by
+                  rw [← hlb]; simp only [List.drop_succ_cons, List.drop_zero, List.length_take]
+                  simp only [List.length_cons] at hlen; omega
+                obtain ⟨tl', htl⟩ : ∃ tl', tl = lb ++ tl' := ⟨tl.drop k, by
+                  rw [← hlb]; simp only [List.drop_succ_cons, List.drop_zero]
+                  exact (List.take_append_drop k tl).symm⟩
+                cases hr : read (2 + k + readUnsigned lb) (tag :: lenByte :: tl) with
+                | none => simp [hr] at h
+                | some p =>
+                  obtain ⟨w, r⟩ := p
+                  simp only [hr, Option.some.injEq] at h
+                  subst h
+                  obtain ⟨h1, h2, h3⟩ := read_some _ _ _ _ hr
+                  have hw : w = tag :: lenByte :: (lb ++ tl'.take (readUnsigned lb)) := by
+                    rw [h3, htl]
+                    rw [show 2 + k + readUnsigned lb = (k + readUnsigned lb) + 1 + 1 by omega]
+                    simp only [List.take_succ_cons]
+                    rw [List.take_append, hlbl]
+                    simp [List.take_of_length_le (show lb.length ≤ k + readUnsigned lb by omega)]
+                  have hbl : (tl'.take (readUnsigned lb)).length = readUnsigned lb := by
+                    have : w.length = 2 + k + (tl'.take (readUnsigned lb)).length := by
+                      rw [hw]; simp [hlbl]; omega
+                    omega
+                  have hd := derLen_of_lenBytes k lb (by omega) (by omega) hlbl (by omega)
+                    (by simpa using htop)
+                  have hnov : readUnsigned lb ≤ 0xfffffff9 := by
+                    have hlt := readUnsigned_lt lb
+                    have hpow := readUnsigned_lt_pow lb (by omega)
+                    rw [hlbl] at hpow
+                    have hk4' : k = 1 ∨ k = 2 ∨ k = 3 ∨ k = 4 := by omega
+                    have hp : k = 4 ∨ readUnsigned lb < 2 ^ 24 := by
+                      rcases hk4' with rfl | rfl | rfl | rfl
+                      · right; omega
+                      · right; omega
+                      · right; omega
+                      · left; rfl
+                    by_cases hbig : 2 + k + readUnsigned lb < 2 ^ 32
+                    · omega
+                    · exfalso; apply hov
+                      have : (2 + k + readUnsigned lb) % 2 ^ 32 = 2 + k + readUnsigned lb - 2 ^ 32 := by omega
+                      omega
+                  simp only [Elem.body]
+                  have hdrop : List.drop (2 + k) w = tl'.take (readUnsigned lb) := by
+                    rw [hw, show 2 + k = k + 1 + 1 by omega]
+                    simp only [List.drop_succ_cons]
+                    rw [← hlbl, List.drop_left]
+                  refine ⟨ht', ?_, ?_, ?_, h1⟩
+                  · rw [hdrop, hbl]; exact hnov
+                  · rw [hdrop, hbl, hd]; simp [hlbl]; omega
+                  · rw [hdrop, hbl, hd, hw, ← hform]; simp
+  | [], h => simp at h
+  | [_], h => simp at h
+
 end XC.C23
